@@ -1375,6 +1375,11 @@ impl Parser {
                             let value = if self.peek(&TokenEnum::Comma)
                                 || self.peek(&TokenEnum::RightBrace)
                             {
+                                if only_literal_children {
+                                    // a literal has no variable to take the field from
+                                    self.push_error(ParseErrorEnum::InvalidLiteral, name_meta);
+                                    return Err(());
+                                }
                                 Expr::untyped(ExprEnum::Identifier(name.clone()), name_meta)
                             } else {
                                 self.expect(&TokenEnum::Colon)?;
@@ -1393,6 +1398,10 @@ impl Parser {
                                 let value = if self.peek(&TokenEnum::Comma)
                                     || self.peek(&TokenEnum::RightBrace)
                                 {
+                                    if only_literal_children {
+                                        self.push_error(ParseErrorEnum::InvalidLiteral, name_meta);
+                                        return Err(());
+                                    }
                                     Expr::untyped(ExprEnum::Identifier(name.clone()), name_meta)
                                 } else {
                                     self.expect(&TokenEnum::Colon)?;
@@ -1500,7 +1509,8 @@ impl Parser {
                             let size = n as usize;
                             Expr::untyped(ExprEnum::ArrayRepeatLiteral(Box::new(elem), size), meta)
                         }
-                        Some(Token(TokenEnum::Identifier(n), _)) => {
+                        // a literal has no const to refer to, its size must be a number
+                        Some(Token(TokenEnum::Identifier(n), _)) if !only_literal_children => {
                             self.advance();
                             let meta_end = self.expect(&TokenEnum::RightBracket)?;
                             let meta = join_meta(meta, meta_end);
